@@ -375,7 +375,6 @@ int main(int argc, char **argv)
 	R.counters["scripted_message_replacements"] = muts;
 	R.counters["scripted_crashes"] = crashes;
 	R.counters["honest_reconstructions_logged"] = recons;
-	R.counters["slowest_case_ms"] = (uint64_t)(slowest * 1000);
 	R.max_samples = 5;
 	R.sample(slowest_id, "slowest execution of this shard: " + str(slowest) + " s");
 	R.bound = "n=" + str(nmin) + ".." + str(nmax) + ", all t with 3t<n, every faulty set <= t; tier " + A.tier;
